@@ -24,8 +24,8 @@ SHAPES = {
     "n3": [("TS", 3, 4), ("KS", KEYS[2]), ("ON", 0), "W", ("ON", 1), "W", ("OFF", 0), ("ON", 2), "W", ("OFF", 1), "W",
            ("OFF", 2)],
 }
-ATTRS = ["pitch", "onset", "duration", "velocity", "channel", "ts_value", "ks_value", "ts_tick", "ks_tick"]
-FLAG_OF = {"velocity": 3, "channel": 0, "ts_value": 1, "ts_tick": 1, "ks_value": 2, "ks_tick": 2}
+ATTRS = ["pitch", "onset", "duration", "velocity", "channel", "ts_value", "ts_scaled", "ts_den", "ks_value", "ts_tick", "ks_tick"]
+FLAG_OF = {"velocity": 3, "channel": 0, "ts_value": 1, "ts_scaled": 1, "ts_den": 1, "ts_tick": 1, "ks_value": 2, "ks_tick": 2}
 
 
 class Content:
@@ -130,6 +130,10 @@ def q_perturb(shape, wmax, attr, dmax, which):
             c2.meta_ch = c2.meta_ch + abs(d)
         elif attr == "ts_value":
             c2.ts[0] = c2.ts[0] + abs(d)
+        elif attr == "ts_scaled":
+            c2.ts[0], c2.ts[1] = c2.ts[0] * 2, c2.ts[1] * 2       # 3/4 vs 6/8: same ratio, different signature
+        elif attr == "ts_den":
+            c2.ts[1] = c2.ts[1] * 2
         elif attr == "ks_value":
             c2.ks[0] = (c2.ks[0] + 1 + which) % 15
         elif attr == "ts_tick":
